@@ -90,7 +90,7 @@ TYPES_DATA = ["VISIBLE_STRING", "UNICODE_STRING", "OCTET_STRING", "DOMAIN"]
 
 
 def bounds(tier):
-    return {"bfs_depth": 4 if tier == "quick" else 6, "events": len(EVENTS),
+    return {"bfs_depth": 5 if tier == "quick" else 10, "events": len(EVENTS),
             "matrix_lengths": "0..24 + {40, 64}" if tier == "quick" else "0..64 + {127, 889, 10000}"}
 
 
@@ -114,7 +114,7 @@ def _probe_chunk(hists):
 
 
 def run_main(tier, seed, jobs, st):
-    depth = 4 if tier == "quick" else 6
+    depth = 5 if tier == "quick" else 10
     k = seed % len(EVENT_NAMES)
     events = EVENT_NAMES[k:] + EVENT_NAMES[:k]
     states = [[]]
